@@ -4,6 +4,8 @@ import ClipVerif.Proofs.C17
 import ClipVerif.Model.Trim
 import ClipVerif.Model.Lists
 import ClipVerif.Model.Out
+import ClipVerif.Model.AreaOP
+import ClipVerif.Proofs.AreaOP
 /-
 C13 — results do not depend on coordinate magnitude within the advertised range.  Proved about the
 generated arithmetic leaves: they are invariant under every translation (differences are taken
@@ -83,5 +85,36 @@ theorem buildPath_translate (ring : List Point64) (reverse isOpen : Bool) (v : P
     Model.buildPath (ring.map (shift · v)) reverse isOpen = (Model.buildPath ring reverse isOpen).map (·.map (shift · v)) := by
   exact Proofs.C13b.buildPath_map ring reverse isOpen v
 
+
+
+/-! ### The ring area of the self-intersection repair (`areaOP`, model `Model.areaOP`, tied bit for bit
+by `models-corr areaop`).  The float accumulation multiplies a coordinate SUM by a coordinate
+DIFFERENCE; its exact counterpart is the shoelace sum of the specification, hence translation
+invariant — in floats only the differences are. -/
+
+theorem areaOPExact2_eq_area2 (ring : List IPt) : Model.areaOPExact2 ring = Spec.area2 ring := by
+  exact Proofs.AreaOP.areaOPExact2_eq_area2 ring
+
+theorem areaOPExact2_translate (ring : List IPt) (dx dy : Int) :
+    Model.areaOPExact2 (ring.map fun v => ⟨v.x + dx, v.y + dy⟩) = Model.areaOPExact2 ring := by
+  rw [areaOPExact2_eq_area2, areaOPExact2_eq_area2]
+  exact area2_translate ring dx dy
+
+/-- the difference operand of every term of the float accumulation is the same for a translated
+    ring, for every 64-bit translation vector (two's complement); the sum operand moves by 2·dy -/
+theorem areaOP_operands_translate (prev cur v : Point64) :
+    (shift prev v).X - (shift cur v).X = prev.X - cur.X ∧
+    (shift prev v).Y + (shift cur v).Y = prev.Y + cur.Y + 2 * v.Y := by
+  refine ⟨?_, ?_⟩
+  · simp only [shift, Proofs.C13.sub_shift]
+  · simp only [shift]
+    apply Int64.toBitVec_inj.mp
+    simp only [Int64.toBitVec_add, Int64.toBitVec_mul]
+    have h2 : (2 : Int64).toBitVec = 2#64 := rfl
+    rw [h2]
+    bv_omega
+
+example : Model.areaOPExact2 [⟨0, 0⟩, ⟨4, 0⟩, ⟨4, 3⟩] = Spec.area2 [⟨0, 0⟩, ⟨4, 0⟩, ⟨4, 3⟩] ∧
+    Model.areaOPExact2 [⟨0, 0⟩, ⟨4, 0⟩, ⟨4, 3⟩] ≠ 0 := by decide
 
 end C13
